@@ -383,30 +383,33 @@ def fteik2d(slow, dz, dx, zsrc, xsrc, nsweep=2, grad=False):
             tauv = td[j] - vzero * np.abs(j - xsa) * dx
             tauev = td[j - 1] - vzero * np.abs(j - xsa - 1.0) * dx
 
-            dzi = 1.0 / (dzd * dz)
-            dz2i = dzi / (dzd * dz)
-            taue = tt[zsi + 1, j - 1] - t_ana(zsi + 1, j - 1, dz, dx, zsa, xsa, vzero)
-            t0c, tzc, txc = t_anad(zsi + 1, j, dz, dx, zsa, xsa, vzero)
-            tt[zsi + 1, j] = delta(
-                tt[zsi + 1, j],
-                tauv,
-                taue,
-                tauev,
-                t0c,
-                tzc,
-                txc,
-                dzi,
-                dxi,
-                dz2i,
-                dx2i,
-                vzero,
-                vref,
-                1,
-                1,
-            )
-            if grad:
-                ttsgn[zsi + 1, j, 0] = 1
-                ttsgn[zsi + 1, j, 1] = 1
+            if dzd > 0.0:
+                dzi = 1.0 / (dzd * dz)
+                dz2i = dzi / (dzd * dz)
+                taue = tt[zsi + 1, j - 1] - t_ana(
+                    zsi + 1, j - 1, dz, dx, zsa, xsa, vzero
+                )
+                t0c, tzc, txc = t_anad(zsi + 1, j, dz, dx, zsa, xsa, vzero)
+                tt[zsi + 1, j] = delta(
+                    tt[zsi + 1, j],
+                    tauv,
+                    taue,
+                    tauev,
+                    t0c,
+                    tzc,
+                    txc,
+                    dzi,
+                    dxi,
+                    dz2i,
+                    dx2i,
+                    vzero,
+                    vref,
+                    1,
+                    1,
+                )
+                if grad:
+                    ttsgn[zsi + 1, j, 0] = 1
+                    ttsgn[zsi + 1, j, 1] = 1
 
             if dzu > 0.0:
                 dzi = 1.0 / (dzu * dz)
@@ -441,30 +444,33 @@ def fteik2d(slow, dz, dx, zsrc, xsrc, nsweep=2, grad=False):
             tauv = td[j] - vzero * np.abs(j - xsa) * dx
             tauev = td[j + 1] - vzero * np.abs(j - xsa + 1.0) * dx
 
-            dzi = 1.0 / (dzd * dz)
-            dz2i = dzi / (dzd * dz)
-            taue = tt[zsi + 1, j + 1] - t_ana(zsi + 1, j + 1, dz, dx, zsa, xsa, vzero)
-            t0c, tzc, txc = t_anad(zsi + 1, j, dz, dx, zsa, xsa, vzero)
-            tt[zsi + 1, j] = delta(
-                tt[zsi + 1, j],
-                tauv,
-                taue,
-                tauev,
-                t0c,
-                tzc,
-                txc,
-                dzi,
-                dxi,
-                dz2i,
-                dx2i,
-                vzero,
-                vref,
-                1,
-                -1,
-            )
-            if grad:
-                ttsgn[zsi + 1, j, 0] = 1
-                ttsgn[zsi + 1, j, 1] = -1
+            if dzd > 0.0:
+                dzi = 1.0 / (dzd * dz)
+                dz2i = dzi / (dzd * dz)
+                taue = tt[zsi + 1, j + 1] - t_ana(
+                    zsi + 1, j + 1, dz, dx, zsa, xsa, vzero
+                )
+                t0c, tzc, txc = t_anad(zsi + 1, j, dz, dx, zsa, xsa, vzero)
+                tt[zsi + 1, j] = delta(
+                    tt[zsi + 1, j],
+                    tauv,
+                    taue,
+                    tauev,
+                    t0c,
+                    tzc,
+                    txc,
+                    dzi,
+                    dxi,
+                    dz2i,
+                    dx2i,
+                    vzero,
+                    vref,
+                    1,
+                    -1,
+                )
+                if grad:
+                    ttsgn[zsi + 1, j, 0] = 1
+                    ttsgn[zsi + 1, j, 1] = -1
 
             if dzu > 0.0:
                 dzi = 1.0 / (dzu * dz)
@@ -504,30 +510,33 @@ def fteik2d(slow, dz, dx, zsrc, xsrc, nsweep=2, grad=False):
             taue = td[i] - vzero * np.abs(i - zsa) * dz
             tauev = td[i - 1] - vzero * np.abs(i - zsa - 1.0) * dz
 
-            dxi = 1.0 / (dxe * dx)
-            dx2i = dxi / (dxe * dx)
-            tauv = tt[i - 1, xsi + 1] - t_ana(i - 1, xsi + 1, dz, dx, zsa, xsa, vzero)
-            t0c, tzc, txc = t_anad(i, xsi + 1, dz, dx, zsa, xsa, vzero)
-            tt[i, xsi + 1] = delta(
-                tt[i, xsi + 1],
-                tauv,
-                taue,
-                tauev,
-                t0c,
-                tzc,
-                txc,
-                dzi,
-                dxi,
-                dz2i,
-                dx2i,
-                vzero,
-                vref,
-                1,
-                1,
-            )
-            if grad:
-                ttsgn[i, xsi + 1, 0] = 1
-                ttsgn[i, xsi + 1, 1] = 1
+            if dxe > 0.0:
+                dxi = 1.0 / (dxe * dx)
+                dx2i = dxi / (dxe * dx)
+                tauv = tt[i - 1, xsi + 1] - t_ana(
+                    i - 1, xsi + 1, dz, dx, zsa, xsa, vzero
+                )
+                t0c, tzc, txc = t_anad(i, xsi + 1, dz, dx, zsa, xsa, vzero)
+                tt[i, xsi + 1] = delta(
+                    tt[i, xsi + 1],
+                    tauv,
+                    taue,
+                    tauev,
+                    t0c,
+                    tzc,
+                    txc,
+                    dzi,
+                    dxi,
+                    dz2i,
+                    dx2i,
+                    vzero,
+                    vref,
+                    1,
+                    1,
+                )
+                if grad:
+                    ttsgn[i, xsi + 1, 0] = 1
+                    ttsgn[i, xsi + 1, 1] = 1
 
             if dxw > 0.0:
                 dxi = 1.0 / (dxw * dx)
@@ -562,30 +571,33 @@ def fteik2d(slow, dz, dx, zsrc, xsrc, nsweep=2, grad=False):
             taue = td[i] - vzero * np.abs(i - zsa) * dz
             tauev = td[i + 1] - vzero * np.abs(i - zsa + 1.0) * dz
 
-            dxi = 1.0 / (dxe * dx)
-            dx2i = dxi / (dxe * dx)
-            tauv = tt[i + 1, xsi + 1] - t_ana(i + 1, xsi + 1, dz, dx, zsa, xsa, vzero)
-            t0c, tzc, txc = t_anad(i, xsi + 1, dz, dx, zsa, xsa, vzero)
-            tt[i, xsi + 1] = delta(
-                tt[i, xsi + 1],
-                tauv,
-                taue,
-                tauev,
-                t0c,
-                tzc,
-                txc,
-                dzi,
-                dxi,
-                dz2i,
-                dx2i,
-                vzero,
-                vref,
-                -1,
-                1,
-            )
-            if grad:
-                ttsgn[i, xsi + 1, 0] = -1
-                ttsgn[i, xsi + 1, 1] = 1
+            if dxe > 0.0:
+                dxi = 1.0 / (dxe * dx)
+                dx2i = dxi / (dxe * dx)
+                tauv = tt[i + 1, xsi + 1] - t_ana(
+                    i + 1, xsi + 1, dz, dx, zsa, xsa, vzero
+                )
+                t0c, tzc, txc = t_anad(i, xsi + 1, dz, dx, zsa, xsa, vzero)
+                tt[i, xsi + 1] = delta(
+                    tt[i, xsi + 1],
+                    tauv,
+                    taue,
+                    tauev,
+                    t0c,
+                    tzc,
+                    txc,
+                    dzi,
+                    dxi,
+                    dz2i,
+                    dx2i,
+                    vzero,
+                    vref,
+                    -1,
+                    1,
+                )
+                if grad:
+                    ttsgn[i, xsi + 1, 0] = -1
+                    ttsgn[i, xsi + 1, 1] = 1
 
             if dxw > 0.0:
                 dxi = 1.0 / (dxw * dx)
